@@ -184,4 +184,505 @@ theorem scatterAdd_perm (n : ℕ) (acc : List ℚ) (order : List ℕ) (rs : List
   rw [scatterAdd_getD _ _ _ _ (by omega),
     contrib_nodup _ _ _ (isPerm_nodup hp) (by rw [isPerm_length hp, hrs]) ((isPerm_mem hp).mpr hu)]
 
+/-! ### Explicit formula for one validation point and for the whole kernel -/
+
+/-- utilities in rank order: `us[r]` = utility of the label of the unit of rank `r` -/
+def usOf (labels order : List ℕ) (util : List ℚ) (null : ℚ) : List ℚ :=
+  order.map (fun u => util.getD (labels.getD u 0) null)
+
+/-- what one validation point adds to slot `u` -/
+def pointContrib (labels order : List ℕ) (util : List ℚ) (null : ℚ) (u : ℕ) : ℚ :=
+  contrib order (rankScores (usOf labels order util null) null) u
+
+theorem pointAccum_length (acc : List ℚ) (labels order : List ℕ) (util : List ℚ) (null : ℚ) :
+    (pointAccum acc labels order util null).length = acc.length := scatterAdd_length _ _ _
+
+theorem pointAccum_getD (acc : List ℚ) (labels order : List ℕ) (util : List ℚ) (null : ℚ) (u : ℕ)
+    (hu : u < acc.length) :
+    (pointAccum acc labels order util null).getD u 0 = acc.getD u 0 + pointContrib labels order util null u :=
+  scatterAdd_getD _ _ _ _ hu
+
+/-- a validation point = (labels, order, util, null) -/
+abbrev Col := List ℕ × List ℕ × List ℚ × ℚ
+
+/-- the zipped columns, as `importances` builds them -/
+def cols (labels orders : List (List ℕ)) (utils : List (List ℚ)) (nulls : List ℚ) : List Col :=
+  labels.zip (orders.zip (utils.zip nulls))
+
+def colContrib (c : Col) (u : ℕ) : ℚ := pointContrib c.1 c.2.1 c.2.2.1 c.2.2.2 u
+
+theorem foldl_pointAccum_length (cs : List Col) (acc : List ℚ) :
+    (cs.foldl (fun a c => pointAccum a c.1 c.2.1 c.2.2.1 c.2.2.2) acc).length = acc.length := by
+  induction cs generalizing acc with
+  | nil => rfl
+  | cons c cs ih => simp only [List.foldl_cons]; rw [ih, pointAccum_length]
+
+theorem foldl_pointAccum_getD (cs : List Col) (acc : List ℚ) (u : ℕ) (hu : u < acc.length) :
+    (cs.foldl (fun a c => pointAccum a c.1 c.2.1 c.2.2.1 c.2.2.2) acc).getD u 0
+      = acc.getD u 0 + (cs.map (fun c => colContrib c u)).sum := by
+  induction cs generalizing acc with
+  | nil => simp
+  | cons c cs ih =>
+    simp only [List.foldl_cons, List.map_cons, List.sum_cons]
+    rw [ih _ (by rw [pointAccum_length]; exact hu), pointAccum_getD _ _ _ _ _ _ hu]
+    unfold colContrib; ring
+
+theorem importances_length (n : ℕ) (labels orders : List (List ℕ)) (utils : List (List ℚ)) (nulls : List ℚ) :
+    (importances n labels orders utils nulls).length = n := by
+  unfold importances
+  simp only [List.length_map]
+  rw [foldl_pointAccum_length]; simp
+
+theorem getD_replicate_zero (n u : ℕ) : (List.replicate n (0:ℚ)).getD u 0 = 0 := by
+  simp only [List.getD_eq_getElem?_getD, List.getElem?_replicate]
+  split_ifs <;> rfl
+
+theorem getD_map_div (l : List ℚ) (m : ℚ) (u : ℕ) : (l.map (· / m)).getD u 0 = l.getD u 0 / m := by
+  simp only [List.getD_eq_getElem?_getD, List.getElem?_map]
+  cases l[u]? <;> simp
+
+/-- explicit formula for the kernel, list form -/
+theorem importances_getD_list (n : ℕ) (labels orders : List (List ℕ)) (utils : List (List ℚ)) (nulls : List ℚ)
+    (u : ℕ) (hu : u < n) :
+    (importances n labels orders utils nulls).getD u 0
+      = ((cols labels orders utils nulls).map (fun c => colContrib c u)).sum
+          / ((cols labels orders utils nulls).length : ℚ) := by
+  unfold importances
+  simp only []
+  rw [getD_map_div, foldl_pointAccum_getD _ _ _ (by simpa using hu), Nat.cast_zero, getD_replicate_zero, zero_add]
+  rfl
+
+/-- two lists of the same length `n` with the same entries are equal -/
+theorem ext_getD {l₁ l₂ : List ℚ} {n : ℕ} (h₁ : l₁.length = n) (h₂ : l₂.length = n)
+    (h : ∀ u, u < n → l₁.getD u 0 = l₂.getD u 0) : l₁ = l₂ := by
+  apply List.ext_getElem (by rw [h₁, h₂])
+  intro i hi₁ hi₂
+  have := h i (by omega)
+  simpa [List.getD_eq_getElem?_getD, List.getElem?_eq_getElem hi₁, List.getElem?_eq_getElem hi₂] using this
+
+theorem list_sum_map_eq_range {β : Type} (l : List β) (f : β → ℚ) (d : β) :
+    (l.map f).sum = ∑ j ∈ range l.length, f (l.getD j d) := by
+  induction l with
+  | nil => simp
+  | cons a l ih =>
+    simp only [List.map_cons, List.sum_cons, List.length_cons]
+    rw [Finset.sum_range_succ', ih]
+    simp [add_comm]
+
+theorem list_sum_eq_fin (l : List ℚ) (n : ℕ) (h : l.length = n) : l.sum = ∑ u : Fin n, l.getD u.val 0 := by
+  have := list_sum_map_eq_range l id 0
+  simp only [List.map_id, id] at this
+  rw [this, h, Fin.sum_univ_eq_sum_range (fun u => l.getD u 0) n]
+
+/-- number of validation points the kernel sees (zip truncates to the shortest column list) -/
+theorem cols_length (labels orders : List (List ℕ)) (utils : List (List ℚ)) (nulls : List ℚ) :
+    (cols labels orders utils nulls).length
+      = min labels.length (min orders.length (min utils.length nulls.length)) := by
+  simp [cols, List.length_zip]
+
+theorem cols_length_eq {m : ℕ} {labels orders : List (List ℕ)} {utils : List (List ℚ)} {nulls : List ℚ}
+    (hl : labels.length = m) (ho : orders.length = m) (hU : utils.length = m) (hN : nulls.length = m) :
+    (cols labels orders utils nulls).length = m := by
+  rw [cols_length, hl, ho, hU, hN]; simp
+
+theorem cols_getD (labels orders : List (List ℕ)) (utils : List (List ℚ)) (nulls : List ℚ) (j : ℕ)
+    (hj : j < (cols labels orders utils nulls).length) :
+    (cols labels orders utils nulls).getD j ([], [], [], 0)
+      = (labels.getD j [], orders.getD j [], utils.getD j [], nulls.getD j 0) := by
+  rw [cols_length] at hj
+  have h1 : j < labels.length := by omega
+  have h2 : j < orders.length := by omega
+  have h3 : j < utils.length := by omega
+  have h4 : j < nulls.length := by omega
+  simp [cols, List.getD_eq_getElem?_getD, h1, h2, h3, h4, List.length_zip]
+
+/-- explicit formula for the kernel, indexed form -/
+theorem importances_getD (n : ℕ) (labels orders : List (List ℕ)) (utils : List (List ℚ)) (nulls : List ℚ)
+    (u : ℕ) (hu : u < n) :
+    (importances n labels orders utils nulls).getD u 0
+      = (∑ j ∈ range (cols labels orders utils nulls).length,
+          pointContrib (labels.getD j []) (orders.getD j []) (utils.getD j []) (nulls.getD j 0) u)
+          / ((cols labels orders utils nulls).length : ℚ) := by
+  rw [importances_getD_list _ _ _ _ _ _ hu, list_sum_map_eq_range _ _ ([], [], [], 0)]
+  congr 1
+  apply Finset.sum_congr rfl
+  intro j hj
+  rw [cols_getD _ _ _ _ _ (Finset.mem_range.mp hj)]
+  rfl
+
+/-! ### The 1-NN utility game over units -/
+
+theorem getD_idxOf {order : List ℕ} {u : ℕ} (hu : u ∈ order) : order.getD (order.idxOf u) 0 = u := by
+  have h := List.idxOf_lt_length_iff.mpr hu
+  simp [List.getD_eq_getElem?_getD, List.getElem?_eq_getElem h]
+
+theorem idxOf_getD {order : List ℕ} (hnd : order.Nodup) {k : ℕ} (hk : k < order.length) :
+    order.idxOf (order.getD k 0) = k := by
+  simp only [List.getD_eq_getElem?_getD, List.getElem?_eq_getElem hk, Option.getD_some]
+  exact hnd.idxOf_getElem k hk
+
+theorem getD_mem {order : List ℕ} {k : ℕ} (hk : k < order.length) : order.getD k 0 ∈ order := by
+  simp only [List.getD_eq_getElem?_getD, List.getElem?_eq_getElem hk, Option.getD_some]
+  exact List.getElem_mem hk
+
+/-- smallest rank (position in `order`) among the units of the nonempty coalition `S` -/
+def minRank {n : ℕ} (order : List ℕ) (S : Finset (Fin n)) (h : S.Nonempty) : ℕ :=
+  (S.image (fun u : Fin n => order.idxOf u.val)).min' (h.image _)
+
+/-- the present unit of smallest rank = the nearest present unit -/
+def nearest {n : ℕ} (order : List ℕ) (S : Finset (Fin n)) (h : S.Nonempty) : ℕ :=
+  order.getD (minRank order S h) 0
+
+/-- **The 1-NN utility game of one validation point**, over units `0 … n-1`:
+the value of a coalition `S` of training units is the utility of the label of the nearest unit
+present in `S` (nearest = smallest position in `order`), and the null value when `S` is empty. -/
+def nnGameU (n : ℕ) (order labels : List ℕ) (util : List ℚ) (null : ℚ) : Sh.Game n := fun S =>
+  if h : S.Nonempty then util.getD (labels.getD (nearest order S h) 0) null else null
+
+/-- `nearest` really is a member of `S`, and no member of `S` has a smaller rank -/
+theorem nearest_spec {n : ℕ} {order : List ℕ} (hp : isPerm n order = true) (S : Finset (Fin n)) (h : S.Nonempty) :
+    ∃ u ∈ S, u.val = nearest order S h ∧ ∀ v ∈ S, order.idxOf u.val ≤ order.idxOf v.val := by
+  have hmem := Finset.min'_mem (S.image (fun u : Fin n => order.idxOf u.val)) (h.image _)
+  obtain ⟨u, huS, hu⟩ := Finset.mem_image.mp hmem
+  refine ⟨u, huS, ?_, ?_⟩
+  · unfold nearest minRank
+    rw [← hu, getD_idxOf ((isPerm_mem hp).mpr u.isLt)]
+  · intro v hv
+    rw [hu]
+    exact Finset.min'_le _ _ (Finset.mem_image_of_mem _ hv)
+
+/-- unit ↦ rank, as a permutation of `Fin n` -/
+def rankEquiv {n : ℕ} {order : List ℕ} (hp : isPerm n order = true) : Equiv.Perm (Fin n) where
+  toFun u := ⟨order.idxOf u.val,
+    lt_of_lt_of_eq (List.idxOf_lt_length_iff.mpr ((isPerm_mem hp).mpr u.isLt)) (isPerm_length hp)⟩
+  invFun k := ⟨order.getD k.val 0, (isPerm_mem hp).mp (getD_mem (by rw [isPerm_length hp]; exact k.isLt))⟩
+  left_inv u := Fin.ext (getD_idxOf ((isPerm_mem hp).mpr u.isLt))
+  right_inv k := Fin.ext (idxOf_getD (isPerm_nodup hp) (by rw [isPerm_length hp]; exact k.isLt))
+
+@[simp] theorem rankEquiv_val {n : ℕ} {order : List ℕ} (hp : isPerm n order = true) (u : Fin n) :
+    (rankEquiv hp u).val = order.idxOf u.val := rfl
+
+theorem usOf_length (labels order : List ℕ) (util : List ℚ) (null : ℚ) :
+    (usOf labels order util null).length = order.length := by simp [usOf]
+
+/-- entries of the rank-ordered utility row with the null row appended -/
+theorem usOf_append_getD (labels order : List ℕ) (util : List ℚ) (null : ℚ) (k : ℕ) (hk : k < order.length) :
+    (usOf labels order util null ++ [null]).getD k 0 = util.getD (labels.getD (order.getD k 0) 0) null := by
+  have hk' : k < (usOf labels order util null).length := by rw [usOf_length]; exact hk
+  simp only [List.getD_eq_getElem?_getD, List.getElem?_append_left hk']
+  simp [usOf, List.getElem?_eq_getElem hk]
+
+theorem usOf_append_getD_last (labels order : List ℕ) (util : List ℚ) (null : ℚ) :
+    (usOf labels order util null ++ [null]).getD order.length 0 = null := by
+  simp [List.getD_eq_getElem?_getD, usOf_length]
+
+theorem min'_congr {A B : Finset ℕ} (hA : A.Nonempty) (hB : B.Nonempty) (h : A = B) : A.min' hA = B.min' hB := by
+  subst h; rfl
+
+/-- in rank coordinates the game over units is the game `Sh.nnGame` over ranks -/
+theorem nnGameU_eq {n : ℕ} {order : List ℕ} (hp : isPerm n order = true) (labels : List ℕ) (util : List ℚ)
+    (null : ℚ) (S : Finset (Fin n)) :
+    nnGameU n order labels util null S
+      = Sh.nnGame (fun k => (usOf labels order util null ++ [null]).getD k 0) (S.map (rankEquiv hp).toEmbedding) := by
+  unfold nnGameU Sh.nnGame
+  by_cases h : S.Nonempty
+  · have h' : (S.map (rankEquiv hp).toEmbedding).Nonempty := h.map
+    rw [dif_pos h, dif_pos h']
+    have key : minRank order S h = ((S.map (rankEquiv hp).toEmbedding).min' h').val := by
+      have himg : S.image (fun u : Fin n => order.idxOf u.val)
+          = (S.map (rankEquiv hp).toEmbedding).image Fin.val := by
+        rw [Finset.map_eq_image, Finset.image_image]; rfl
+      have hne : ((S.map (rankEquiv hp).toEmbedding).image Fin.val).Nonempty := h'.image _
+      unfold minRank
+      rw [min'_congr _ hne himg]
+      exact Finset.min'_image (f := (Fin.val : Fin n → ℕ)) Fin.val_strictMono.monotone _ hne
+    unfold nearest
+    beta_reduce
+    rw [key, usOf_append_getD]
+    rw [isPerm_length hp]; exact Fin.isLt _
+  · have h' : ¬ (S.map (rankEquiv hp).toEmbedding).Nonempty := by simpa using h
+    rw [dif_neg h, dif_neg h']
+    have := usOf_append_getD_last labels order util null
+    rw [isPerm_length hp] at this
+    exact this.symm
+
+/-! facts about `sortsWeakly` -/
+
+theorem sortsWeakly_isPerm {d : List ℚ} {order : List ℕ} (h : sortsWeakly d order = true) :
+    isPerm d.length order = true := by
+  unfold sortsWeakly at h
+  exact (Bool.and_eq_true _ _ ▸ h).1
+
+theorem sortsWeakly_le {d : List ℚ} {order : List ℕ} (h : sortsWeakly d order = true) (r s : ℕ) (hrs : r ≤ s)
+    (hs : s < order.length) : d.getD (order.getD r 0) 0 ≤ d.getD (order.getD s 0) 0 := by
+  unfold sortsWeakly at h
+  simp only [Bool.and_eq_true, List.all_eq_true, List.mem_range, decide_eq_true_eq] at h
+  obtain ⟨_, hadj⟩ := h
+  induction s with
+  | zero => have : r = 0 := by omega
+            subst this; exact le_refl _
+  | succ s ih =>
+    by_cases hr : r = s + 1
+    · subst hr; exact le_refl _
+    · exact le_trans (ih (by omega) (by omega)) (hadj s (by omega))
+
+/-- **core of C01**: what one validation point adds to the slot of unit `u` is the Shapley value of
+`u` in the 1-NN utility game of that point -/
+theorem pointContrib_eq_phi {n : ℕ} (hn : 0 < n) {order : List ℕ} (hp : isPerm n order = true)
+    (labels : List ℕ) (util : List ℚ) (null : ℚ) (u : Fin n) :
+    pointContrib labels order util null u.val = Sh.phi (nnGameU n order labels util null) u := by
+  have hu : u.val ∈ order := (isPerm_mem hp).mpr u.isLt
+  have hr : order.idxOf u.val < n := lt_of_lt_of_eq (List.idxOf_lt_length_iff.mpr hu) (isPerm_length hp)
+  unfold pointContrib
+  rw [contrib_nodup _ _ _ (isPerm_nodup hp) (by rw [rankScores_length, usOf_length]) hu,
+    rankScores_closed _ _ _ (by rw [usOf_length, isPerm_length hp]; exact hr)]
+  have hg : nnGameU n order labels util null
+      = fun S => Sh.nnGame (fun k => (usOf labels order util null ++ [null]).getD k 0)
+          (S.map (rankEquiv hp).toEmbedding) := funext (nnGameU_eq hp labels util null)
+  rw [hg, Sh.phi_equivariant, Sh.phi_nnGame hn, usOf_length, isPerm_length hp]
+  apply Finset.sum_congr rfl
+  intro k _
+  by_cases h : order.idxOf u.val ≤ k
+  · have h' : (rankEquiv hp u).val ≤ k := h
+    rw [if_pos h, if_pos h']; ring
+  · have h' : ¬ (rankEquiv hp u).val ≤ k := h
+    rw [if_neg h, if_neg h']; ring
+
+theorem getD_mem' {β : Type} (l : List β) (d : β) {k : ℕ} (hk : k < l.length) : l.getD k d ∈ l := by
+  simp only [List.getD_eq_getElem?_getD, List.getElem?_eq_getElem hk, Option.getD_some]
+  exact List.getElem_mem hk
+
+theorem nnGameU_empty (n : ℕ) (order labels : List ℕ) (util : List ℚ) (null : ℚ) :
+    nnGameU n order labels util null ∅ = null := by
+  unfold nnGameU; rw [dif_neg (by simp)]
+
+/-- with every unit present the nearest one is `order[0]` -/
+theorem nnGameU_univ {n : ℕ} (hn : 0 < n) {order : List ℕ} (hp : isPerm n order = true) (labels : List ℕ)
+    (util : List ℚ) (null : ℚ) :
+    nnGameU n order labels util null univ = util.getD (labels.getD (order.getD 0 0) 0) null := by
+  have hne : (univ : Finset (Fin n)).Nonempty := ⟨⟨0, hn⟩, Finset.mem_univ _⟩
+  have h0 : 0 < order.length := by rw [isPerm_length hp]; exact hn
+  obtain ⟨u, _, hu, hmin⟩ := nearest_spec hp univ hne
+  have hv : order.getD 0 0 < n := (isPerm_mem hp).mp (getD_mem h0)
+  have h1 := hmin ⟨order.getD 0 0, hv⟩ (Finset.mem_univ _)
+  rw [idxOf_getD (isPerm_nodup hp) h0] at h1
+  have h2 : order.idxOf u.val = 0 := by omega
+  have h3 := getD_idxOf ((isPerm_mem hp).mpr u.isLt)
+  rw [h2] at h3
+  unfold nnGameU
+  rw [dif_pos hne, ← hu, h3]
+
+/-! ### Helpers for C07 (invariances) -/
+
+/-- permuting the validation points does not change the kernel (list form, on the zipped columns) -/
+theorem importances_perm (n : ℕ) (labels orders : List (List ℕ)) (utils : List (List ℚ)) (nulls : List ℚ)
+    (labels' orders' : List (List ℕ)) (utils' : List (List ℚ)) (nulls' : List ℚ)
+    (h : (cols labels orders utils nulls).Perm (cols labels' orders' utils' nulls')) :
+    importances n labels orders utils nulls = importances n labels' orders' utils' nulls' := by
+  apply ext_getD (importances_length _ _ _ _ _) (importances_length _ _ _ _ _)
+  intro u hu
+  rw [importances_getD_list _ _ _ _ _ _ hu, importances_getD_list _ _ _ _ _ _ hu, h.length_eq,
+    (h.map _).sum_eq]
+
+theorem cols_append (labels orders : List (List ℕ)) (utils : List (List ℚ)) (nulls : List ℚ)
+    (labels' orders' : List (List ℕ)) (utils' : List (List ℚ)) (nulls' : List ℚ)
+    (h1 : labels.length = orders.length) (h2 : orders.length = utils.length) (h3 : utils.length = nulls.length) :
+    cols (labels ++ labels') (orders ++ orders') (utils ++ utils') (nulls ++ nulls')
+      = cols labels orders utils nulls ++ cols labels' orders' utils' nulls' := by
+  unfold cols
+  rw [List.zip_append h3, List.zip_append (by simp [List.length_zip]; omega),
+    List.zip_append (by simp [List.length_zip]; omega)]
+
+/-- if the zipped columns are duplicated the kernel does not change -/
+theorem importances_dup (n : ℕ) (labels orders : List (List ℕ)) (utils : List (List ℚ)) (nulls : List ℚ)
+    (labels' orders' : List (List ℕ)) (utils' : List (List ℚ)) (nulls' : List ℚ)
+    (h : cols labels' orders' utils' nulls' = cols labels orders utils nulls ++ cols labels orders utils nulls) :
+    importances n labels' orders' utils' nulls' = importances n labels orders utils nulls := by
+  apply ext_getD (importances_length _ _ _ _ _) (importances_length _ _ _ _ _)
+  intro u hu
+  rw [importances_getD_list _ _ _ _ _ _ hu, importances_getD_list _ _ _ _ _ _ hu, h]
+  simp only [List.map_append, List.sum_append, List.length_append]
+  push_cast
+  rw [← two_mul, ← two_mul, mul_div_mul_left _ _ (two_ne_zero)]
+
+theorem getD_map_lt (l : List ℚ) (f : ℚ → ℚ) (k : ℕ) (hk : k < l.length) :
+    (l.map f).getD k 0 = f (l.getD k 0) := by
+  simp only [List.getD_eq_getElem?_getD, List.getElem?_map, List.getElem?_eq_getElem hk]
+  simp
+
+/-- strictly monotone maps of the distances are sorted by the same orders -/
+theorem sortsWeakly_map (f : ℚ → ℚ) (hf : StrictMono f) (d : List ℚ) (order : List ℕ) :
+    sortsWeakly (d.map f) order = sortsWeakly d order := by
+  unfold sortsWeakly
+  rw [List.length_map]
+  cases hp : isPerm d.length order with
+  | false => simp
+  | true =>
+    simp only [Bool.true_and]
+    have hlen := isPerm_length hp
+    have hget : ∀ r, r < order.length → (d.map f).getD (order.getD r 0) 0 = f (d.getD (order.getD r 0) 0) := by
+      intro r hr
+      exact getD_map_lt d f _ ((isPerm_mem hp).mp (getD_mem hr))
+    rw [Bool.eq_iff_iff]
+    simp only [List.all_eq_true, List.mem_range, decide_eq_true_eq]
+    apply forall_congr'; intro r
+    apply forall_congr'; intro hr
+    rw [hget r (by omega), hget (r+1) (by omega)]
+    exact hf.le_iff_le
+
+/-! relabelling the units -/
+
+/-- a permutation of `Fin n` acting on unit indices (identity outside `0 … n-1`) -/
+def permN {n : ℕ} (π : Equiv.Perm (Fin n)) (v : ℕ) : ℕ := if h : v < n then (π ⟨v, h⟩).val else v
+
+theorem permN_fin {n : ℕ} (π : Equiv.Perm (Fin n)) (u : Fin n) : permN π u.val = (π u).val := by
+  unfold permN; rw [dif_pos u.isLt]
+
+theorem permN_lt {n : ℕ} (π : Equiv.Perm (Fin n)) {v : ℕ} (hv : v < n) : permN π v < n := by
+  unfold permN; rw [dif_pos hv]; exact Fin.isLt _
+
+theorem permN_symm {n : ℕ} (π : Equiv.Perm (Fin n)) (v : ℕ) : permN π.symm (permN π v) = v := by
+  by_cases hv : v < n
+  · have := permN_fin π ⟨v, hv⟩
+    simp only at this
+    rw [this, permN_fin]; simp
+  · unfold permN; rw [dif_neg hv, dif_neg hv]
+
+theorem permN_injective {n : ℕ} (π : Equiv.Perm (Fin n)) : Function.Injective (permN π) :=
+  Function.LeftInverse.injective (permN_symm π)
+
+/-- the label column after renaming unit `u` to `π u`: new unit `v` carries the label of old unit `π⁻¹ v` -/
+def relabel {n : ℕ} (π : Equiv.Perm (Fin n)) (labels : List ℕ) : List ℕ :=
+  (List.range n).map (fun v => labels.getD (permN π.symm v) 0)
+
+theorem relabel_getD {n : ℕ} (π : Equiv.Perm (Fin n)) (labels : List ℕ) {x : ℕ} (hx : x < n) :
+    (relabel π labels).getD (permN π x) 0 = labels.getD x 0 := by
+  have h := permN_lt π hx
+  unfold relabel
+  simp [List.getD_eq_getElem?_getD, List.getElem?_map, List.getElem?_range h, permN_symm]
+
+theorem contrib_map_inj (f : ℕ → ℕ) (hf : Function.Injective f) (order : List ℕ) (rs : List ℚ) (u : ℕ) :
+    contrib (order.map f) rs (f u) = contrib order rs u := by
+  induction order generalizing rs with
+  | nil => simp [contrib]
+  | cons o os ih =>
+    cases rs with
+    | nil => simp [contrib]
+    | cons x xs =>
+      rw [List.map_cons, contrib_cons, contrib_cons, ih]
+      simp only [hf.eq_iff]
+
+theorem pointContrib_relabel {n : ℕ} (π : Equiv.Perm (Fin n)) (labels order : List ℕ) (util : List ℚ) (null : ℚ)
+    (ho : ∀ x ∈ order, x < n) (u : ℕ) :
+    pointContrib (relabel π labels) (order.map (permN π)) util null (permN π u)
+      = pointContrib labels order util null u := by
+  have hus : usOf (relabel π labels) (order.map (permN π)) util null = usOf labels order util null := by
+    unfold usOf
+    rw [List.map_map]
+    apply List.map_congr_left
+    intro x hx
+    simp only [Function.comp]
+    rw [relabel_getD π labels (ho x hx)]
+  unfold pointContrib
+  rw [hus, contrib_map_inj _ (permN_injective π)]
+
+/-- relabelling the units by `π` permutes the result by `π` -/
+theorem importances_relabel {n : ℕ} (π : Equiv.Perm (Fin n)) (labels orders : List (List ℕ))
+    (utils : List (List ℚ)) (nulls : List ℚ) (ho : ∀ o ∈ orders, ∀ x ∈ o, x < n) (u : Fin n) :
+    (importances n (labels.map (relabel π)) (orders.map (List.map (permN π))) utils nulls).getD (π u).val 0
+      = (importances n labels orders utils nulls).getD u.val 0 := by
+  have hc : cols (labels.map (relabel π)) (orders.map (List.map (permN π))) utils nulls
+      = (cols labels orders utils nulls).map (Prod.map (relabel π) (Prod.map (List.map (permN π)) id)) := by
+    unfold cols
+    rw [List.zip_map_left (l₁ := orders), List.zip_map]
+  rw [importances_getD_list _ _ _ _ _ _ (π u).isLt, importances_getD_list _ _ _ _ _ _ u.isLt, hc,
+    List.length_map, List.map_map]
+  congr 2
+  apply List.map_congr_left
+  intro c hc
+  have hco : c.2.1 ∈ orders := (List.of_mem_zip (List.of_mem_zip hc).2).1
+  simp only [Function.comp, colContrib, Prod.map_fst, Prod.map_snd, id]
+  rw [← permN_fin, pointContrib_relabel π _ _ _ _ (ho _ hco)]
+
+theorem isPerm_map_permN {n : ℕ} (π : Equiv.Perm (Fin n)) {o : List ℕ} (hp : isPerm n o = true) :
+    isPerm n (o.map (permN π)) = true := by
+  have hlen := isPerm_length hp
+  unfold isPerm
+  simp only [Bool.and_eq_true, beq_iff_eq, List.length_map, List.all_eq_true, List.mem_range,
+    List.contains_iff_mem, List.mem_map]
+  refine ⟨hlen, fun u hu => ⟨permN π.symm u, (isPerm_mem hp).mpr (permN_lt _ hu), ?_⟩⟩
+  have := permN_symm π.symm u
+  rwa [Equiv.symm_symm] at this
+
+/-! symmetric units -/
+
+theorem getD_append_lt (us : List ℚ) (null : ℚ) (k : ℕ) (hk : k < us.length) :
+    (us ++ [null]).getD k 0 = us.getD k 0 := by
+  simp only [List.getD_eq_getElem?_getD, List.getElem?_append_left hk]
+
+/-- if the utilities are constant on the ranks `r … s` the kernel gives those ranks the same score -/
+theorem rankScores_eq_of_const (us : List ℚ) (null : ℚ) (r s : ℕ) (hrs : r ≤ s) (hs : s < us.length)
+    (hc : ∀ k, r ≤ k → k < s → us.getD k 0 = us.getD (k+1) 0) :
+    (rankScores us null).getD r 0 = (rankScores us null).getD s 0 := by
+  rw [rankScores_closed _ _ _ (by omega), rankScores_closed _ _ _ hs]
+  apply Finset.sum_congr rfl
+  intro k _
+  by_cases h1 : s ≤ k
+  · rw [if_pos h1, if_pos (by omega)]
+  · rw [if_neg h1]
+    by_cases h2 : r ≤ k
+    · rw [if_pos h2, getD_append_lt _ _ _ (by omega), getD_append_lt _ _ _ (by omega), hc k h2 (by omega)]
+      simp
+    · rw [if_neg h2]
+
+theorem usOf_getD (labels order : List ℕ) (util : List ℚ) (null : ℚ) (k : ℕ) (hk : k < order.length) :
+    (usOf labels order util null).getD k 0 = util.getD (labels.getD (order.getD k 0) 0) null := by
+  rw [← usOf_append_getD _ _ _ _ _ hk, getD_append_lt _ _ _ (by rw [usOf_length]; exact hk)]
+
+theorem pointContrib_symm_le {n : ℕ} {order : List ℕ} (hp : isPerm n order = true) (labels : List ℕ)
+    (util : List ℚ) (null : ℚ) (a b : ℕ) (ha : a < n) (hb : b < n) (hab : order.idxOf a ≤ order.idxOf b)
+    (c : ℚ)
+    (hc : ∀ k, order.idxOf a ≤ k → k ≤ order.idxOf b →
+      util.getD (labels.getD (order.getD k 0) 0) null = c) :
+    pointContrib labels order util null a = pointContrib labels order util null b := by
+  have hma := (isPerm_mem hp).mpr ha
+  have hmb := (isPerm_mem hp).mpr hb
+  have hlb : order.idxOf b < order.length := List.idxOf_lt_length_iff.mpr hmb
+  have hl : order.length = (rankScores (usOf labels order util null) null).length := by
+    rw [rankScores_length, usOf_length]
+  unfold pointContrib
+  rw [contrib_nodup _ _ _ (isPerm_nodup hp) hl hma, contrib_nodup _ _ _ (isPerm_nodup hp) hl hmb]
+  apply rankScores_eq_of_const _ _ _ _ hab (by rw [usOf_length]; exact hlb)
+  intro k h1 h2
+  rw [usOf_getD _ _ _ _ _ (by omega), usOf_getD _ _ _ _ _ (by omega), hc k h1 (by omega), hc (k+1) (by omega) (by omega)]
+
+/-- one validation point: if all units ranked between `a` and `b` (inclusive) have the same utility,
+`a` and `b` receive the same contribution -/
+theorem pointContrib_symm {n : ℕ} {order : List ℕ} (hp : isPerm n order = true) (labels : List ℕ)
+    (util : List ℚ) (null : ℚ) (a b : ℕ) (ha : a < n) (hb : b < n) (c : ℚ)
+    (hc : ∀ k, min (order.idxOf a) (order.idxOf b) ≤ k → k ≤ max (order.idxOf a) (order.idxOf b) →
+      util.getD (labels.getD (order.getD k 0) 0) null = c) :
+    pointContrib labels order util null a = pointContrib labels order util null b := by
+  rcases le_total (order.idxOf a) (order.idxOf b) with h | h
+  · rw [min_eq_left h, max_eq_right h] at hc
+    exact pointContrib_symm_le hp labels util null a b ha hb h c hc
+  · rw [min_eq_right h, max_eq_left h] at hc
+    exact (pointContrib_symm_le hp labels util null b a hb ha h c hc).symm
+
+/-- one validation point: two units with the same label that are adjacent in the sorted order -/
+theorem pointContrib_symm_adjacent {n : ℕ} {order : List ℕ} (hp : isPerm n order = true) (labels : List ℕ)
+    (util : List ℚ) (null : ℚ) (a b : ℕ) (ha : a < n) (hb : b < n)
+    (hlab : labels.getD a 0 = labels.getD b 0)
+    (hadj : order.idxOf a + 1 = order.idxOf b ∨ order.idxOf b + 1 = order.idxOf a) :
+    pointContrib labels order util null a = pointContrib labels order util null b := by
+  have hma := (isPerm_mem hp).mpr ha
+  have hmb := (isPerm_mem hp).mpr hb
+  apply pointContrib_symm hp labels util null a b ha hb (util.getD (labels.getD a 0) null)
+  intro k h1 h2
+  have hk : k = order.idxOf a ∨ k = order.idxOf b := by
+    rcases hadj with h | h <;> simp only [← h] at h1 h2 ⊢ <;> omega
+  rcases hk with rfl | rfl
+  · rw [getD_idxOf hma]
+  · rw [getD_idxOf hmb, hlab]
+
 end Ds.Kernel
